@@ -10,11 +10,11 @@ VERIF = os.path.dirname(os.path.dirname(os.path.abspath(__file__)))
 # pid -> (category, technique, level text, level note, design ref)
 CHECKS = {
     "C01": ("exploration", "boundary-history runtime monitor: simulated device state vs state assigned through public setters (apply) and vs attributes of a fresh second client (refresh); register interval check on concurrent histories",
-            "Every value of every settable field, boundary device ids, both protocol versions, bytes/hex credentials, five segmentation classes of the reply stream, 0..3 unsolicited/duplicate frames before/after the reply and bursts of 17..260 (state frames, or unrelated reports behind the reply followed by the client's own refresh), display toggle, a second authenticate() on the live V3 connection; re-apply histories with a second controller; concurrent sub-workload with 2..4 clients, random latencies, pushed change reports and segment coalescing, checked against the device's version timeline.",
+            "Every value of every settable field, boundary device ids, both protocol versions, bytes/hex credentials, five segmentation classes of the reply stream, 0..3 unsolicited/duplicate frames before/after the reply and bursts of 17..260 (state frames, or unrelated reports behind the reply followed by the client's own refresh), display toggle, a second authenticate() on the live V3 connection, a refresh of the same object in flight, the unit closing the idle connection between two applies, objects constructed before the event loop runs; re-apply histories with a second controller; concurrent sub-workload with 2..4 clients, random latencies, pushed change reports and segment coalescing, checked against the device's version timeline.",
             "One recorded known finding (V2 reply packet split across TCP segments) is keyed by mechanism (version 2 and a cut inside a packet) and only suppresses the refresh half of such cases.", "DESIGN.md section 2 C01"),
     "C02": ("exploration", "differential runtime monitor: real codec vs independent reference codec, exhaustive lengths + seeded random",
             "Every frame length 0..255 x boundary device ids enumerated in both directions plus seeded random frames/ids/instants and "
-            "LAN.send on a simulated V2 connection (incl. retransmissions, long sessions, 15..257 responses to one request, replies followed by FIN/RST, 2-4 LAN objects at overlapping times) and 70 000+ packets encoded in one process; held-on-observed, not a proof.",
+            "LAN.send on a simulated V2 connection (incl. retransmissions, long sessions, 15..257 responses to one request, replies followed by FIN/RST, frames that look like packets, 2-4 LAN objects at overlapping times) and 70 000+ packets encoded in one process; held-on-observed, not a proof.",
             "Trusts mv/ref/v2.py (independent V2 implementation) and the AES block primitive (cross-checked at setup).", "DESIGN.md section 2 C02"),
     "C03": ("fault_enumeration", "fault enumeration with an outcome-class runtime oracle on the real decoder (all bit flips, truncations, byte substitutions)",
             "Every single-bit flip and every truncation of authentic packets for every frame length 0..255, all 255 values of each marker/length byte and a 16-bit length catalogue, byte substitutions (all 255 values "
@@ -26,16 +26,16 @@ CHECKS = {
             "Trusts mv/ref/v3.py framing and the in-memory transport's copy of asyncio's data_received semantics.", "DESIGN.md section 2 C04"),
     "C05": ("fault_enumeration", "differential runtime monitor vs independent V3 codec + exhaustive single-bit tamper enumeration (direct and through LAN.send)",
             "Payload lengths 0..300 in both directions (decode both through _process_packet and through data_received/read in several segmentations, incl. responses searched to contain the start marker), counters 0..4095 (thorough), random keys, wire round trips on an authenticated simulated session, "
-            "session sequences of varying length through one protocol instance (direct and via write()), and every single-bit flip of a response for every padding residue with the genuine response accepted before and between (all replies altered, or only the first); session keys with leading/trailing zero bytes.",
+            "session sequences of varying length through one protocol instance (direct and via write()), and every single-bit flip of a response for every padding residue with the genuine response accepted before and between (all replies altered, or only the first); session keys with leading/trailing zero bytes; marker-like packet counters in front of marker-like payloads.",
             "Trusts mv/ref/v3.py; marker/size bit flips at the LAN.send level may end in TimeoutError (framing never completes).", "DESIGN.md section 2 C05"),
     "C10": ("exploration", "differential runtime monitor: 0x40 bodies captured by the simulated device decoded with a vendor-layout reference decoder; run-wide injectivity map",
-            "Every value of every settable field, 62 setpoints x 6 modes, fan bytes 0..127, all 768 combinations of flags sharing a byte, pairwise array, seeded random states, with/without a capability profile queried first, with property setters pending, through the deprecated alias setters, against a device that reports its state with every reply, and apply() overlapping a refresh(); all through AirConditioner.apply() on the real stack.",
+            "Every value of every settable field, 62 setpoints x 6 modes, fan bytes 0..127, all 768 combinations of flags sharing a byte, pairwise array, seeded random states, with/without a capability profile queried first, with property setters pending, through the deprecated alias setters, against a device that reports its state with every reply, apply() overlapping a refresh() or another apply(); all through AirConditioner.apply() on the real stack.",
             "Trusts mv/ref/acstate.decode_0x40 (transliteration of the vendor Lua, line references kept) and the oracle choices listed in DESIGN.md C10 'S'.", "DESIGN.md section 2 C10"),
     "C11": ("exploration", "differential runtime monitor: attributes of a fresh AirConditioner after refresh() vs independent decode of the raw 0xC0 body the simulated device reported",
             "256 x 10 temperature/tenths per sensor per unit, 32 x 32 setpoint codes, all 256 values of each flag byte, fan 0..127, lengths 16..40 x both check styles, every value of the trailing check byte and of the frame checksum, random bodies; histories on one object (longer report first, same report around local edits, pushed report before a change).",
             "Trusts mv/ref/acstate.decode_0xC0 and the oracle choices in DESIGN.md C11 'S' (permissive presence rule, unspecified enum values and aux precedence not judged).", "DESIGN.md section 2 C11"),
     "C12": ("exploration", "strict spec-conforming frame parser + reference device command parser observing every frame emitted (direct tobytes() and on the simulated wire); message-id sequence monitor",
-            "All command classes over their parameter domains (512 property subsets, every property value, both capability pages, states), public operations under several capability profiles (also against additive-check devices with junk/corrupted/missing/duplicated replies and with two clients at once), deferred serialisation, and mixed sequences spanning many id wrap-arounds.",
+            "All command classes over their parameter domains (512 property subsets, every property value, both capability pages, states), public operations under several capability profiles (also against additive-check devices with junk/corrupted/missing/duplicated replies and with two clients at once), deferred serialisation, attribute reads (str/repr/to_dict/properties) between operations, and mixed sequences spanning many id wrap-arounds.",
             "Trusts mv/ref/acframe.py (bitwise CRC-8/MAXIM) and the reference device's command grammar in mv/simdev.py.", "DESIGN.md section 2 C12"),
     "C13": ("fault_enumeration", "single-byte fault enumeration on valid response frames with an independent validity predicate; state-diff and online/supported oracle after refresh()/get_capabilities()",
             "Every byte position after the start byte x substitute values (29 sampled in quick, all 255 in thorough; one frame or 2-5 copies per exchange; refresh, get_capabilities and toggle_display) x {plain, outer checksum recomputed} for state, capabilities, properties, energy and humidity responses; in half of the cases another client object accepts the genuine frame first.",
@@ -44,31 +44,31 @@ CHECKS = {
             "All body/raw truncation lengths of every response kind, count/size bytes 0..255, records pointing past the end, every property/capability value, ids 0..255 x 6 frame types, random bodies, mixes of good and bad frames (state, one- and two-page capability replies with unsolicited 0xB5 frames, property reports), one-record capability profiles with every value followed by unusual state reports.",
             "Frames are delivered in authentic V2 packets; transport-level malformation belongs to C09.", "DESIGN.md section 2 C14"),
     "C06": ("fault_enumeration", "fault enumeration of the handshake reply against the real client + wire-log / stored-credential / follow-up-exchange oracles on a simulated V3 device",
-            "Per random (token,key,nonce) triple: all 512 proof bit flips, reply lengths 0..80, all type nibbles, error/encrypted packets, foreign-key proofs, header/counter bit flips, late genuine replies, genuine replies in 2-3 TCP segments, session keys / credentials of special shapes, re-authentication histories on live / expired sessions; genuine replies verified by an encrypted exchange the device accepts.",
+            "Per random (token,key,nonce) triple: all 512 proof bit flips, reply lengths 0..80, all type nibbles, error/encrypted packets, foreign-key proofs, header/counter bit flips, late genuine replies, genuine replies in 2-3 TCP segments, session keys / credentials of special shapes, proofs containing the start markers, an abandoned authentication with new credentials, re-authentication histories on live / expired sessions; genuine replies verified by an encrypted exchange the device accepts.",
             "Trusts mv/ref/v3.py (proof = AES-CBC_K(nonce) || SHA256(nonce), session key nonce XOR K). Failed re-authentication on a live authenticated connection is not judged.", "DESIGN.md section 2 C06"),
     "C09": ("exploration", "containment monitor: allowed-exception-set oracle per entry point under a byte-level adversarial simulated peer (grammar-aware mutation of V2/V3 traffic)",
-            "Structured catalogues (length-field boundaries, signed garbage ciphertext, authentic packets with boundary header fields, type nibbles x phases, pad nibbles, sizes, truncations, peer FIN/RST after or instead of its bytes) plus seeded random mutation, across LAN.send, LAN.authenticate, Device.authenticate, Device._send_command and AirConditioner.refresh/apply/get_capabilities/toggle_display incl. implicit re-authentication.",
+            "Structured catalogues (length-field boundaries, signed garbage ciphertext, authentic packets with boundary header fields, type nibbles x phases, pad nibbles, sizes, truncations, peer FIN/RST after or instead of its bytes) plus seeded random mutation, across LAN.send, LAN.authenticate, Device.authenticate, Device._send_command and AirConditioner.refresh/apply/get_capabilities/toggle_display incl. implicit re-authentication and peer bytes arriving 0..1.2 s after a genuine implicit handshake reply.",
             "The peer controls bytes only; exceptions inside protocol callbacks are recorded, judged only through what escapes the entry point.", "DESIGN.md section 2 C09"),
     "C15": ("exploration", "metamorphic runtime oracle on the real capability parser (whole list vs in-order merge of single records) and paging invariance through get_capabilities() for every split point",
-            "Every known capability id x every value between sentinel records, temperature records of sizes 0..10 at every position, unknown/zero-size/odd-size records, random lists of <= 12 records; every split point across two responses; re-query on the same object with the same first page.",
+            "Every known capability id x every value between sentinel records, temperature records of sizes 0..10 at every position, unknown/zero-size/odd-size records, random lists of <= 12 records; every split point across two responses; re-query on the same object with the same first page; a query abandoned while connecting before the judged one.",
             "Only well-formed lists are judged; single-record interpretations come from the real parser (no value tables in the oracle).", "DESIGN.md section 2 C15"),
     "C07": ("exploration", "offline trace checker over the simulated device's per-connection wire log (decoded with the device's own keys) joined with the harness call log; virtual-time clock jumps",
-            "All event histories of depth <= 3 (quick) / <= 4 (thorough) over a 13-letter alphabet with 4 connection-lifetime settings, directed periodic-use histories, random histories to depth 25, one long single-connection session (> 4096 / > 65536 packets) followed by 12 h jumps, and the same histories under five TZ settings (DST changes on the jump).",
+            "All event histories of depth <= 3 (quick) / <= 4 (thorough) over a 13-letter alphabet with 4 connection-lifetime settings, directed periodic-use histories, random histories to depth 25, one long single-connection session (> 4096 / > 65536 packets) followed by 12 h jumps, the same histories under five TZ settings (DST changes on the jump), refused reconnects while the old connection is open, copies / pickles of the disconnected object, and credentials with whitespace / NUL edge bytes through Device.authenticate.",
             "Histories start with a successful authenticate; 'bad credentials' = token the device rejects; instants offset so no exchange starts exactly on an expiry boundary.", "DESIGN.md section 2 C07"),
     "C08": ("fault_enumeration", "virtual-time reference retry model vs transmissions counted by the simulated device; fault-sequence enumeration with a recovery oracle at LAN and device level",
-            "All answer-delay patterns for retry budgets 1..4 on V2 and V3, every single fault and ordered pair (thorough: triple) of faults across connect (refused, hanging, unreachable, name resolution, several addresses refused, OS timeout, accept-then-close) / handshake / data phases with connection lifetime unset/90 s/1 h, cancellation instants on a 0.1 s grid.",
+            "All answer-delay patterns for retry budgets 1..4 on V2 and V3, every single fault and ordered pair (thorough: triple) of faults across connect (refused, hanging, unreachable, name resolution, several addresses refused, OS timeout, accept-then-close) / handshake / data phases with connection lifetime unset/90 s/1 h, cancellation instants on a 0.1 s grid, a unit that answers and closes at once, and a second event loop using the object of a first run.",
             "Timing verdicts on virtual time only; scripted delays never coincide with a timeout instant.", "DESIGN.md section 2 C08"),
     "C16": ("exploration", "client/device reference model over setter/apply/refresh histories: 0xB0 bodies captured by the simulated device vs changed-set, advertised id and vendor value encoding; read-back and breeze-exclusivity invariants",
-            "All histories of depth <= 2 (quick) / <= 3 (thorough) over a per-profile alphabet for 14 capability profiles (breeze-control vs legacy both/away/breezeless/none, 2-/5-level/no rate select, iECO, swing angles, self clean), plus random histories up to length 20 over all enum values with ordinary control setters and display toggles in between, units that refuse a write (result 0x11), a setter running while apply() waits for the unit, and read-back through a second client object.",
+            "All histories of depth <= 2 (quick) / <= 3 (thorough) over a per-profile alphabet for 14 capability profiles (breeze-control vs legacy both/away/breezeless/none, 2-/5-level/no rate select, iECO, swing angles, self clean), plus random histories up to length 20 over all enum values with ordinary control setters and display toggles in between, units that refuse a write (result 0x11), a setter running while apply() waits for the unit, read-back through a second client object, and objects made by deepcopy / pickle of a never-connected template.",
             "The simulated legacy device keeps breeze-away and breezeless mutually exclusive; a setting changed before an intervening refresh may or may not be transmitted.", "DESIGN.md section 2 C16"),
     "C17": ("exploration", "identity differential on a simulated UDP network: Device objects returned by discover()/discover_single() vs reference-built V2/V3 replies; probe acceptability judged against a private byte-exact copy of the probe",
-            "All 256 type bytes x both hex cases x both versions, boundary ids/ports, reported-IP != source, both listening ports, 1..4 hosts, discover_single (address or host name), discovery_packets/timeout arguments, overlapping discoveries, UTF-8 serial numbers/names, auto_connect against a simulated V2 device.",
+            "All 256 type bytes x both hex cases x both versions, boundary ids/ports, reported-IP != source, both listening ports, 1..4 hosts, discover_single (address or host name), discovery_packets/timeout arguments, overlapping discoveries, UTF-8 serial numbers/names, non-zero unread header fields, wall-clock steps during the listening window, auto_connect against a simulated V2 device.",
             "Trusts mv/ref/discovery.py (reply layout from the protocol description, probe copy held in /verif).", "DESIGN.md section 2 C17"),
     "C18": ("exploration", "result-set and no-exception monitor over enumerated arrival interleavings of duplicate / malformed discovery replies on a simulated UDP network; event-loop exception handler watched",
-            "Every distinct interleaving of <= 6 datagrams from <= 4 hosts, 22 bad-reply classes (incl. V1 announcements whose TCP port accepts) alone / next to good hosts / from every subset of hosts, good hosts of any type naming any address in their body, listening windows 1..8 s, ICMP errors delivered to the socket between replies, hosts sharing one device id, random larger schedules.",
+            "Every distinct interleaving of <= 6 datagrams from <= 4 hosts, 22 bad-reply classes (incl. V1 announcements whose TCP port accepts) alone / next to good hosts / from every subset of hosts, good hosts of any type naming any address in their body, listening windows 1..8 s, ICMP errors delivered to the socket between replies, hosts sharing one device id, wall-clock steps, random larger schedules.",
             "Each host is consistently good or bad within a run; a V1 announcement whose TCP connect is refused or never completes is outside the statement's reply classes (DESIGN.md section 4, observation 3).", "DESIGN.md section 2 C18"),
     "C19": ("exploration", "model cloud server (httpx.MockTransport through get_async_client) verifying every request on the wire; returned-credential and retry/error-mapping oracles; end-to-end discovery + V3 authentication on the simulated network",
-            "Match position x near-miss ids x list sizes, all fault scripts of length <= 3 per request stage over 6 fault kinds, credentials over printable ASCII incl. + & = % space @, built-in regional credentials, both udpid byte orders end to end, faults at the login and at the getToken stage of Discover.connect(), timeouts that take 10 s of loop time.",
+            "Match position x near-miss ids x list sizes, all fault scripts of length <= 3 per request stage over 6 fault kinds, credentials over printable ASCII incl. + & = % space @, built-in regional credentials, both udpid byte orders end to end, faults at the login and at the getToken stage of Discover.connect(), units silent on a foreign token, timeouts that take 10 s of loop time.",
             "No offline ground truth of the real server: the model is an independent second implementation of the documented algorithm, checked on the wire form.", "DESIGN.md section 2 C19"),
     "C20": ("exploration", "in-process runs of msmart.cli.main() on the virtual loop against a simulated device: final device state vs reported state overlaid with a README-derived interpretation; exit status and zero-I/O oracle for invalid input",
             "Every writable setting, every enumeration member and alias by name in three letter cases and by value, raw fan integers, int/float numbers, boolean spellings, display toggle 2x2, pairs and tuples of settings, V2 and V3 (--id/--token/--key), with/without --capabilities (also restricted capability profiles), lines run after a fresh import of msmart, and an invalid-input catalogue.",
